@@ -749,7 +749,11 @@ inline void install_death_handlers()
     sigemptyset(&sa.sa_mask);
     sa.sa_flags = 0;
     sigaction(SIGPROF, &sa, nullptr);
+#ifndef VF_FUZZ
+    // (libFuzzer drives its own timeouts with SIGALRM; the wall-clock watchdog exists only in the
+    // threaded rapidcheck harnesses)
     sigaction(SIGALRM, &sa, nullptr);
+#endif
     sigaction(SIGABRT, &sa, nullptr);
 #if !defined(__SANITIZE_ADDRESS__) && !defined(VF_ASAN)
     sa.sa_flags = SA_ONSTACK;
